@@ -16,7 +16,9 @@ CONFIG = dict(
              "Tie: the real Decrypt functions under recover on valid, truncated, length-edited, bit-flipped and malformed-"
              "metadata inputs against the models (json.Unmarshal result and the scrypt/chacha cores read back and passed to the "
              "model), base64 decoder and scrypt.Key parameter checks validated separately, real wallets of each type locked, "
-             "serialised, searched for every original secret, reloaded and unlocked.",
+             "serialised, searched for every original secret, reloaded and unlocked; after every Unlock (successful or not) and after "
+             "any use of the unlocked copy or of a Clone the locked wallet is re-serialised and must be unchanged and secret-free "
+             "(aliasing checks between a wallet and its Clone for all four wallet types).",
         note="Assumed: cipher correctness / authenticity as explicit hypotheses (CipherOK, WrongKeyRejected); json.Unmarshal, the "
              "scrypt core, chacha20poly1305 core, SHA-256 and Secp256k1Hash do not panic (they are total parameters); ciphertexts "
              "shorter than 2^38 bytes. Memory exhaustion (OOM kill) for 2^26 < 128*N*r <= 2^48 is a runtime effect outside the model.",
